@@ -85,66 +85,31 @@ local macro "transparency" d:ident : tactic => `(tactic| (
 /-- the result the wrapper gets to see: of the call for a plain function, of the awaited call for a coroutine function -/
 def seenResult (inner : Fn) (a : Args) (w : World) : Out := if inner.isCoro then invoke inner a w else call inner a w
 
-/-- **timer, count_calls, deprecated are transparent** — unconditionally: over every callable, for all arguments, outcomes and flavours
-    (the sync wrapper over a coroutine function hands the coroutine through un-awaited, the async wrapper awaits exactly once); what they
-    print formats nothing of the user's (generated: `.print []`) -/
+/-- **trace, timer, count_calls, deprecated are transparent** — unconditionally: over every callable, for all arguments, outcomes and
+    flavours (the sync wrapper over a coroutine function hands the coroutine through un-awaited, the async wrapper awaits exactly
+    once).  What they print formats nothing of the user's with the user's own methods: `timer` / `count_calls` print names, times and
+    counters, and `trace` formats the arguments and the result through the never-raising display wrapper `helper_methods._Shown`
+    (generated: `.print []` everywhere, `no_wrapper_formats_raw`, `display_wrapper_facts`; repair of finding
+    `traceFormatsArgumentsAndResults`) — a `__repr__` / `__str__` that raises cannot escape from the decorated call any more
+    (`fixed_trace_unformattable_argument`, `fixed_trace_unformattable_result`). -/
+theorem transparent_trace : TransparentOn dTrace Always := by transparency dTrace
 theorem transparent_timer : TransparentOn dTimer Always := by transparency dTimer
 theorem transparent_count_calls : TransparentOn dCountCalls Always := by transparency dCountCalls
 theorem transparent_deprecated : TransparentOn dDeprecated Always := by transparency dDeprecated
 
-/-! ### trace, trace_if_returns: they FORMAT (and compare) the objects of the caller
+/-! ### trace_if_returns (and does_same_as_function below): they COMPARE the objects of the caller
 
-`trace` prints `{args}, {kwargs}` before the call and `{original_result!r}` after it; `trace_if_returns` evaluates
-`result == return_value` and prints `{result}`, `{args}`, `{kwargs}` on a match.  `__repr__` / `__str__` / `__eq__` of the caller's
-objects run inside the wrapper: when one of them raises, the decorated call raises where the undecorated one does not.  The full
-statements are therefore FALSE of the code (witnesses below, findings `traceFormatsArgumentsAndResults` / `comparisonsCallUserEq`);
-what holds is transparency under the decidable guards `ReprTotal` / `EqTotal`. -/
+`trace_if_returns` evaluates `result == return_value`: `__eq__` of the caller's object runs inside the wrapper; when it raises, the
+decorated call raises where the undecorated one does not.  The full statement is therefore FALSE of the code (witness below, finding
+`comparisonsCallUserEq`: a decorator that compares results has to call the objects' own comparison); what holds is transparency under
+the decidable guard `EqTotal`.  The message it prints on a match is formatted through the display wrapper and cannot raise. -/
 
-/-- `repr` of every positional and keyword argument of the call answers -/
-def ArgsReprTotal (p : Params) (a : Args) : Prop :=
-  a.pos.any (fun i => (p.traits i).reprRaises) = false ∧ (a.kw.map (·.2)).any (fun i => (p.traits i).reprRaises) = false
-
-/-- … and so does `repr` of the object the decorated callable returns -/
-def ReprTotal : Params → Fn → Args → World → Prop := fun p inner a w =>
-  ArgsReprTotal p a ∧ ∀ o evs w1, seenResult inner a w = (.ret (.obj o), evs, w1) → (p.traits o.id).reprRaises = false
-
-/-- `result == return_value` answers, and when it answers True, `str(result)` and `repr` of the arguments answer -/
+/-- `result == return_value` answers -/
 def EqTotal : Params → Fn → Args → World → Prop := fun p inner a w =>
   -- a result that is no object of the user's class (`None`, a coroutine or generator object) answers `NotImplemented`: the reflected
   -- `return_value.__eq__` runs
   (p.traits p.param.id).eqRaises = false ∧
-  ∀ o evs w1, seenResult inner a w = (.ret (.obj o), evs, w1) →
-    (p.traits o.id).eqRaises = false ∧ (o.cls = p.param.cls → (p.traits o.id).strRaises = false ∧ ArgsReprTotal p a)
-
-instance (p : Params) (a : Args) : Decidable (ArgsReprTotal p a) := by unfold ArgsReprTotal; infer_instance
-
-theorem transparent_trace_partial : TransparentOn dTrace ReprTotal := by
-  intro p inner a w hP
-  obtain ⟨⟨hpos, hkw⟩, hres⟩ := hP
-  cases hc : inner.isCoro
-  · rcases h : call inner a w with ⟨r, evs, w1⟩
-    cases r with
-    | exc e => simp [dTrace]; usimp
-    | ret v =>
-      cases v with
-      | obj o =>
-        have ho := hres o evs w1 (by simp [seenResult, hc, h])
-        simp [dTrace]; usimp
-      | _ => simp [dTrace]; usimp
-  · rcases call_coro_shape inner hc a w with ⟨run, h⟩ | ⟨c, h⟩
-    · rcases h2 : run w with ⟨r, evs, w1⟩
-      cases r with
-      | exc e => simp [dTrace]; usimp
-      | ret v =>
-        cases v with
-        | obj o =>
-          have ho := hres o evs w1 (by simp [seenResult, hc, invoke, h, h2])
-          simp [dTrace]; usimp
-        | _ => simp [dTrace]; usimp
-    · simp [dTrace]; usimp
-
-/-- the full-strength statement — not provable: -/
-def transparent_trace_full : Prop := TransparentOn dTrace Always
+  ∀ o evs w1, seenResult inner a w = (.ret (.obj o), evs, w1) → (p.traits o.id).eqRaises = false
 
 theorem transparent_trace_if_returns_partial : TransparentOn dTraceIfReturns EqTotal := by
   intro p inner a w hP
@@ -156,11 +121,8 @@ theorem transparent_trace_if_returns_partial : TransparentOn dTraceIfReturns EqT
     | ret v =>
       cases v with
       | obj o =>
-        obtain ⟨heq, hm⟩ := hP o evs w1 (by simp [seenResult, hc, h])
-        cases hb : (o.cls == p.param.cls)
-        · simp [dTraceIfReturns]; usimp
-        · obtain ⟨hstr, hpos, hkw⟩ := hm (by simpa using hb)
-          simp [dTraceIfReturns]; usimp
+        have heq := hP o evs w1 (by simp [seenResult, hc, h])
+        cases hb : (o.cls == p.param.cls) <;> (simp [dTraceIfReturns]; usimp)
       | _ => simp [dTraceIfReturns]; usimp
   · rcases call_coro_shape inner hc a w with ⟨run, h⟩ | ⟨c, h⟩
     · rcases h2 : run w with ⟨r, evs, w1⟩
@@ -169,11 +131,8 @@ theorem transparent_trace_if_returns_partial : TransparentOn dTraceIfReturns EqT
       | ret v =>
         cases v with
         | obj o =>
-          obtain ⟨heq, hm⟩ := hP o evs w1 (by simp [seenResult, hc, invoke, h, h2])
-          cases hb : (o.cls == p.param.cls)
-          · simp [dTraceIfReturns]; usimp
-          · obtain ⟨hstr, hpos, hkw⟩ := hm (by simpa using hb)
-            simp [dTraceIfReturns]; usimp
+          have heq := hP o evs w1 (by simp [seenResult, hc, invoke, h, h2])
+          cases hb : (o.cls == p.param.cls) <;> (simp [dTraceIfReturns]; usimp)
         | _ => simp [dTraceIfReturns]; usimp
     · simp [dTraceIfReturns]; usimp
 
@@ -386,16 +345,14 @@ def otherOut (p : Params) (inner : Fn) (a : Args) (w : World) : Out :=
   else o
 
 /-- **raises iff the two results differ**: when the decorated function yields `v` and `other_func` yields `u`, the caller gets
-    `v` itself if `u == v` and an `AssertionError` otherwise — provided `u.__ne__` answers and the message (`{result}`, `{other}`,
-    `{args}`, `{kwargs}`) can be formatted -/
+    `v` itself if `u == v` and an `AssertionError` otherwise — provided `u.__ne__` answers (the message is formatted through the
+    never-raising display wrapper) -/
 theorem does_same_result (p : Params) (inner : Fn) (a : Args) (w w1 w2 : World) (v u : Obj) (evs evs2 : List Ev)
     (h1 : seenResult inner a w = (.ret (.obj v), evs, w1))
     (h2 : otherOut p inner a w1 = (.ret (.obj u), evs2, w2))
-    (hne : (p.traits u.id).neRaises = false)
-    (hsv : (p.traits v.id).strRaises = false) (hsu : (p.traits u.id).strRaises = false) (hargs : ArgsReprTotal p a) :
+    (hne : (p.traits u.id).neRaises = false) :
     invoke (.deco dDoesSameAsFunction p inner) a w =
       (if u.cls = v.cls then .ret (.obj v) else .exc (.lib "AssertionError"), evs ++ evs2, w2) := by
-  obtain ⟨hpos, hkw⟩ := hargs
   have split : (u.cls == v.cls) = true ∧ u.cls = v.cls ∨ (u.cls == v.cls) = false ∧ ¬ u.cls = v.cls := by
     by_cases h : u.cls = v.cls <;> simp [h]
   cases hc : inner.isCoro
@@ -1364,11 +1321,10 @@ theorem deprecated_warnings_over_history (p : Params) (inner : Fn) :
 theorem does_same_raises_iff_differ (p : Params) (inner : Fn) (a : Args) (w w1 w2 : World) (v u : Obj) (evs evs2 : List Ev)
     (h1 : seenResult inner a w = (.ret (.obj v), evs, w1))
     (h2 : otherOut p inner a w1 = (.ret (.obj u), evs2, w2))
-    (hne : (p.traits u.id).neRaises = false)
-    (hsv : (p.traits v.id).strRaises = false) (hsu : (p.traits u.id).strRaises = false) (hargs : ArgsReprTotal p a) :
+    (hne : (p.traits u.id).neRaises = false) :
     ((invoke (.deco dDoesSameAsFunction p inner) a w).1.tag = .exc (.lib "AssertionError") ↔ u.cls ≠ v.cls) ∧
     (u.cls = v.cls → (invoke (.deco dDoesSameAsFunction p inner) a w).1.tag = .obj v) := by
-  rw [does_same_result p inner a w w1 w2 v u evs evs2 h1 h2 hne hsv hsu hargs]
+  rw [does_same_result p inner a w w1 w2 v u evs evs2 h1 h2 hne]
   by_cases h : u.cls = v.cls <;> simp [h, Res.tag]
 
 /-! ## trace_class / timer_class -/
@@ -1380,12 +1336,11 @@ theorem class_decorators_table : classDecorators.lookup "trace_class" = some "tr
 theorem member_loop_facts : membersReadWithGetattr = true ∧ membersStoredAsPlainFunction = true ∧ propertiesHandled = true ∧
     memberTypes = ["FunctionType", "MethodType"] := by decide
 
-/-- proved part: instance methods, property getters, and static / class methods reached through the class; for `trace_class` under
-    `ReprTotal` of what the wrapper sees — the INSTANCE included (`{args}` formats `self`) -/
+/-- proved part: instance methods, property getters, and static / class methods reached through the class -/
 theorem transparent_trace_class_partial (k : MemberKind) (acc : Access) (hg : MemberGuard k acc) (p : Params) (self cls : Nat)
-    (raw : Fn) (a : Args) (w : World) (hr : ReprTotal p (memberInner k cls raw) (memberArgs k acc self a) w) :
+    (raw : Fn) (a : Args) (w : World) :
     bodyObs (invoke (decoratedMember dTrace p k acc self cls raw) a w) = bodyObs (invoke (twinMember k acc self cls raw) a w) :=
-  member_transparent transparent_trace_partial k acc hg p self cls raw a w hr
+  member_transparent transparent_trace k acc hg p self cls raw a w trivial
 
 theorem transparent_timer_class_partial (k : MemberKind) (acc : Access) (hg : MemberGuard k acc) (p : Params) (self cls : Nat)
     (raw : Fn) (a : Args) (w : World) :
@@ -1464,29 +1419,9 @@ local macro "single_layer" d:ident : tactic => `(tactic| (
         evalExpr, evalCond, evalCmp, lookup, awaitVal, Res.tag, Val.pyEq, gap, Fn.isCoro, Fn.depth, Fn.metaOk, fmtRaises, fmtOneRaises, valFmtRaises, idsReprRaise,
         condRaises, cmpRaises, objCmpRaises, callBody, hb, hc, hs, obsModel, obsSpec, sumIncr, sumInts, isWarnAt, incrOf, isBodyOf, runBody, World.count, World.bump, outcRes, outcTag, *]))
 
-/-- `trace`: wherever what it formats can be formatted (`repr` of the arguments and of the result answers) -/
-theorem trace_meets_spec (p : Params) (b : Body) (a : Args) (w : World) (hargs : ArgsReprTotal p a)
-    (hres : ∀ v, b.script w.inv = .ret v → (p.traits v.id).reprRaises = false) :
+theorem trace_meets_spec (p : Params) (b : Body) (a : Args) (w : World) :
     obsModel (invoke (.deco dTrace p (.body b)) a w) = obsSpec (spec (.layer .trace p (.body b)) 0 a w) := by
-  obtain ⟨hpos, hkw⟩ := hargs
-  simp only [spec, specBody]
-  cases hb : bind b.sig a with
-  | none => cases hc : b.isCoro <;>
-      simp [dTrace, invoke, call, callLayer, select, findWrapper, runWrapper, execL, exec, execCall, calleeSem, mkFrame, mkArgs, bindVar,
-        evalExpr, evalCond, evalCmp, lookup, awaitVal, Res.tag, Val.pyEq, gap, Fn.isCoro, Fn.depth, Fn.metaOk, fmtRaises, fmtOneRaises, valFmtRaises, idsReprRaise,
-        callBody, hb, hc, hpos, hkw, obsModel, obsSpec, sumIncr, sumInts, isWarnAt, incrOf, isBodyOf]
-  | some bd =>
-    cases hs : b.script w.inv with
-    | exc e base => cases hc : b.isCoro <;>
-      simp [dTrace, invoke, call, callLayer, select, findWrapper, runWrapper, execL, exec, execCall, calleeSem, mkFrame, mkArgs, bindVar,
-        evalExpr, evalCond, evalCmp, lookup, awaitVal, Res.tag, Val.pyEq, gap, Fn.isCoro, Fn.depth, Fn.metaOk, fmtRaises, fmtOneRaises, valFmtRaises, idsReprRaise,
-        callBody, hb, hc, hs, hpos, hkw, obsModel, obsSpec, sumIncr, sumInts, isWarnAt, incrOf, isBodyOf, runBody, World.count, World.bump, outcRes, outcTag]
-    | ret v =>
-      have hv := hres v hs
-      cases hc : b.isCoro <;>
-      simp [dTrace, invoke, call, callLayer, select, findWrapper, runWrapper, execL, exec, execCall, calleeSem, mkFrame, mkArgs, bindVar,
-        evalExpr, evalCond, evalCmp, lookup, awaitVal, Res.tag, Val.pyEq, gap, Fn.isCoro, Fn.depth, Fn.metaOk, fmtRaises, fmtOneRaises, valFmtRaises, idsReprRaise,
-        callBody, hb, hc, hs, hv, hpos, hkw, obsModel, obsSpec, sumIncr, sumInts, isWarnAt, incrOf, isBodyOf, runBody, World.count, World.bump, outcRes, outcTag]
+  single_layer dTrace
 theorem timer_meets_spec (p : Params) (b : Body) (a : Args) (w : World) :
     obsModel (invoke (.deco dTimer p (.body b)) a w) = obsSpec (spec (.layer .timer p (.body b)) 0 a w) := by
   single_layer dTimer
@@ -1511,10 +1446,9 @@ theorem overrides_meets_spec (p : Params) (b : Body) (a : Args) (w : World) :
     simp [dOverrides, invoke, call, callLayer, select]
   rw [this, body_meets_spec]; simp [spec]
 
-/-- `trace_if_returns`: wherever `result == return_value` answers and, on a match, the message can be formatted -/
+/-- `trace_if_returns`: wherever `result == return_value` answers -/
 theorem trace_if_returns_meets_spec (p : Params) (b : Body) (a : Args) (w : World) (hpar : (p.traits p.param.id).eqRaises = false)
-    (heq : ∀ v, b.script w.inv = .ret v → (p.traits v.id).eqRaises = false ∧
-      (v.cls = p.param.cls → (p.traits v.id).strRaises = false ∧ ArgsReprTotal p a)) :
+    (heq : ∀ v, b.script w.inv = .ret v → (p.traits v.id).eqRaises = false) :
     obsModel (invoke (.deco dTraceIfReturns p (.body b)) a w) = obsSpec (spec (.layer .traceIfReturns p (.body b)) 0 a w) := by
   simp only [spec, specBody]
   cases hb : bind b.sig a with
@@ -1529,17 +1463,11 @@ theorem trace_if_returns_meets_spec (p : Params) (b : Body) (a : Args) (w : Worl
         evalExpr, evalCond, evalCmp, lookup, awaitVal, Res.tag, Val.pyEq, gap, Fn.isCoro, Fn.depth, Fn.metaOk,
         callBody, hb, hc, hs, obsModel, obsSpec, sumIncr, sumInts, isWarnAt, incrOf, isBodyOf, runBody, World.count, World.bump, outcRes, outcTag]
     | ret v =>
-      obtain ⟨he, hm⟩ := heq v hs
-      cases hv : (v.cls == p.param.cls)
-      · cases hc : b.isCoro <;>
+      have he := heq v hs
+      cases hv : (v.cls == p.param.cls) <;> cases hc : b.isCoro <;>
         simp [dTraceIfReturns, invoke, call, callLayer, select, findWrapper, runWrapper, execL, exec, execCall, calleeSem, mkFrame, mkArgs, bindVar,
           evalExpr, evalCond, evalCmp, lookup, awaitVal, Res.tag, Val.pyEq, gap, Fn.isCoro, Fn.depth, Fn.metaOk, fmtRaises, fmtOneRaises, valFmtRaises, idsReprRaise, condRaises, cmpRaises, objCmpRaises,
           callBody, hb, hc, hs, hv, he, obsModel, obsSpec, sumIncr, sumInts, isWarnAt, incrOf, isBodyOf, runBody, World.count, World.bump, outcRes, outcTag]
-      · obtain ⟨hstr, hpos, hkw⟩ := hm (by simpa using hv)
-        cases hc : b.isCoro <;>
-        simp [dTraceIfReturns, invoke, call, callLayer, select, findWrapper, runWrapper, execL, exec, execCall, calleeSem, mkFrame, mkArgs, bindVar,
-          evalExpr, evalCond, evalCmp, lookup, awaitVal, Res.tag, Val.pyEq, gap, Fn.isCoro, Fn.depth, Fn.metaOk, fmtRaises, fmtOneRaises, valFmtRaises, idsReprRaise, condRaises, cmpRaises, objCmpRaises,
-          callBody, hb, hc, hs, hv, he, hstr, hpos, hkw, obsModel, obsSpec, sumIncr, sumInts, isWarnAt, incrOf, isBodyOf, runBody, World.count, World.bump, outcRes, outcTag]
 
 theorem require_kwargs_meets_spec (p : Params) (b : Body) (a : Args) (w : World) (hk : p.guard.rejects a = none) :
     obsModel (invoke (.deco dRequireKwargs p (.body b)) a w) = obsSpec (spec (.layer .requireKwargs p (.body b)) 0 a w) := by
@@ -1563,14 +1491,12 @@ theorem require_kwargs_meets_spec (p : Params) (b : Body) (a : Args) (w : World)
 theorem does_same_meets_spec (p : Params) (b : Body) (a : Args) (w : World) (bd bo : Bound) (u : Obj)
     (hb : bind b.sig a = some bd) (hbo : bind p.other.sig a = some bo) (ho : p.other.script w.oinv = .ret u)
     (hne : (p.traits u.id).neRaises = false)
-    (hfmt : ∀ v, b.script w.inv = .ret v → (u.cls ≠ v.cls ∨ (b.isCoro = false ∧ p.other.isCoro = true)) →
-      (p.traits v.id).strRaises = false ∧ (p.traits u.id).strRaises = false ∧ ArgsReprTotal p a)
     -- a plain function next to a coroutine `other_func`: the coroutine object answers `NotImplemented`, `result.__ne__` runs
     (hmixne : ∀ v, b.script w.inv = .ret v → b.isCoro = false → p.other.isCoro = true → (p.traits v.id).neRaises = false) :
     obsModel (invoke (.deco dDoesSameAsFunction p (.body b)) a w) = obsSpec (spec (.layer .doesSame p (.body b)) 0 a w) := by
   obtain ⟨bc, bsig, bscript⟩ := b
   obtain ⟨pp, pr, ⟨oc, osig, oscript⟩, pb, pf, pg, pt⟩ := p
-  simp only at hb hbo ho hne hfmt hmixne
+  simp only at hb hbo ho hne hmixne
   simp only [spec, specBody, SFn.isCoro, SFn.bodyIsCoro]
   cases hs : bscript w.inv with
   | exc e base => cases bc <;> cases oc <;>
@@ -1580,23 +1506,11 @@ theorem does_same_meets_spec (p : Params) (b : Body) (a : Args) (w : World) (bd 
   | ret v =>
     have hsplit : ((u.cls == v.cls) = true ∧ u.cls = v.cls) ∨ ((u.cls == v.cls) = false ∧ ¬ u.cls = v.cls) := by
       by_cases h : u.cls = v.cls <;> simp [h]
-    rcases hsplit with ⟨hv, hv'⟩ | ⟨hv, hv'⟩
-    · have hmix : bc = false → oc = true → (pt v.id).strRaises = false ∧ a.pos.any (fun i => (pt i).reprRaises) = false ∧
-          (a.kw.map (·.2)).any (fun i => (pt i).reprRaises) = false := by
-        intro h1 h2
-        obtain ⟨h3, _, h4, h5⟩ := hfmt v hs (Or.inr ⟨h1, h2⟩)
-        exact ⟨h3, h4, h5⟩
-      have hmn := hmixne v hs
-      cases bc <;> cases oc <;> (try obtain ⟨hm1, hm2, hm3⟩ := hmix rfl rfl) <;> (try have hm4 := hmn rfl rfl) <;>
+    have hmn := hmixne v hs
+    rcases hsplit with ⟨hv, hv'⟩ | ⟨hv, hv'⟩ <;> cases bc <;> cases oc <;> (try have hm4 := hmn rfl rfl) <;>
       simp [dDoesSameAsFunction, invoke, call, callLayer, select, findWrapper, runWrapper, execL, exec, execCall, calleeSem, mkFrame, mkArgs, bindVar,
         evalExpr, evalCond, evalCmp, lookup, awaitVal, Res.tag, Val.pyEq, gap, Fn.isCoro, Fn.depth, Fn.metaOk, fmtRaises, fmtOneRaises, valFmtRaises, idsReprRaise, condRaises, cmpRaises, objCmpRaises,
         callBody, hb, hbo, hs, ho, hv, hv', hne, obsModel, obsSpec, sumIncr, sumInts, isWarnAt, incrOf, isBodyOf, runBody, World.count, World.bump, outcRes, outcTag, *]
-    · obtain ⟨hsv, hsu, hpos, hkw⟩ := hfmt v hs (Or.inl hv')
-      have hmn := hmixne v hs
-      cases bc <;> cases oc <;> (try have hm4 := hmn rfl rfl) <;>
-      simp [dDoesSameAsFunction, invoke, call, callLayer, select, findWrapper, runWrapper, execL, exec, execCall, calleeSem, mkFrame, mkArgs, bindVar,
-        evalExpr, evalCond, evalCmp, lookup, awaitVal, Res.tag, Val.pyEq, gap, Fn.isCoro, Fn.depth, Fn.metaOk, fmtRaises, fmtOneRaises, valFmtRaises, idsReprRaise, condRaises, cmpRaises, objCmpRaises,
-        callBody, hb, hbo, hs, ho, hv, hv', hne, hsv, hsu, hpos, hkw, obsModel, obsSpec, sumIncr, sumInts, isWarnAt, incrOf, isBodyOf, runBody, World.count, World.bump, outcRes, outcTag, *]
 
 /-! ## Non-vacuity: concrete instances of the hypotheses and of the conclusions -/
 
@@ -1699,12 +1613,7 @@ local macro "passes_plain" d:ident : tactic => `(tactic| (
   rcases hr with ⟨drive, rfl⟩ | ⟨e, rfl⟩ <;>
     (simp [$d:ident] <;> usimp <;> try simp [isGenBodyEv, List.filter])))
 
-/-- `trace` formats the arguments before the call (`{args}, {kwargs}`); a generator object is formatted without user code -/
-theorem passes_gen_trace : PassesPlain dTrace (fun p _ a _ => ArgsReprTotal p a) := by
-  intro p inner a w hP hc r evs w1 h hr
-  obtain ⟨hpos, hkw⟩ := hP
-  rcases hr with ⟨drive, rfl⟩ | ⟨e, rfl⟩ <;>
-    (simp [dTrace] <;> usimp <;> try simp [isGenBodyEv, List.filter])
+theorem passes_gen_trace : PassesPlain dTrace Always := by passes_plain dTrace
 theorem passes_gen_timer : PassesPlain dTimer Always := by passes_plain dTimer
 theorem passes_gen_count_calls : PassesPlain dCountCalls Always := by passes_plain dCountCalls
 theorem passes_gen_deprecated : PassesPlain dDeprecated Always := by passes_plain dDeprecated
@@ -1735,12 +1644,13 @@ theorem transparent_gen_of_passes {d : Deco} {P : Params → Fn → Args → Wor
   simp [invokeG, h1, hi, genBodyObs, List.filter_append, h2]
 
 /-- the decorators that hand a generator through for every call -/
-def genTransparent : List Deco := [dTimer, dCountCalls, dDeprecated, dOverrides]
+def genTransparent : List Deco := [dTrace, dTimer, dCountCalls, dDeprecated, dOverrides]
 
 theorem genTransparent_passes : ∀ d ∈ genTransparent, PassesPlain d Always := by
   intro d hd
   simp only [genTransparent, List.mem_cons, List.mem_nil_iff, or_false] at hd
-  rcases hd with rfl | rfl | rfl | rfl
+  rcases hd with rfl | rfl | rfl | rfl | rfl
+  · exact passes_gen_trace
   · exact passes_gen_timer
   · exact passes_gen_count_calls
   · exact passes_gen_deprecated
@@ -1752,7 +1662,7 @@ theorem genTransparent_passes : ∀ d ∈ genTransparent, PassesPlain d Always :
 theorem gen_layer_not_coro : ∀ d ∈ genTransparent, ∀ (p : Params) (inner : Fn), inner.isCoro = false → (Fn.deco d p inner).isCoro = false := by
   intro d hd p inner hc
   simp only [genTransparent, List.mem_cons, List.mem_nil_iff, or_false] at hd
-  rcases hd with rfl | rfl | rfl | rfl <;> simp [Fn.isCoro, select, findWrapper, hc, dTimer, dCountCalls, dDeprecated, dOverrides]
+  rcases hd with rfl | rfl | rfl | rfl | rfl <;> simp [Fn.isCoro, select, findWrapper, hc, dTrace, dTimer, dCountCalls, dDeprecated, dOverrides]
 
 /-- a stack of these decorators (any depth, any parameters) over the generator function `g` -/
 inductive GenStack (g : GenBody) : Fn → Prop where
@@ -1811,13 +1721,6 @@ theorem transparent_generator_layer {d : Deco} {P : Params → Fn → Args → W
     · exact Or.inl ⟨_, rfl⟩
   obtain ⟨evs', h3, h4⟩ := hpass p f a w hP hc _ evs w h1 hres
   exact invokeG_of_call g _ ops a w evs' h3 (by rw [h4, h2])
-
-/-- `trace` on top: wherever `repr` of the arguments answers (it formats them before the call; the generator object itself is formatted
-    without user code) -/
-theorem transparent_generator_trace (g : GenBody) (f : Fn) (hf : GenStack g f) (p : Params) (ops : List GenOp) (a : Args) (w : World)
-    (hr : ArgsReprTotal p a) :
-    genBodyObs (invokeG ops (.deco dTrace p f) a w) = genBodyObs (invokeG ops (.gen g) a w) :=
-  transparent_generator_layer passes_gen_trace g f hf p ops a w hr
 
 /-- `trace_if_returns` on top: wherever `return_value.__eq__` answers -/
 theorem transparent_generator_trace_if_returns (g : GenBody) (f : Fn) (hf : GenStack g f) (p : Params) (ops : List GenOp) (a : Args) (w : World)
@@ -1903,11 +1806,9 @@ theorem transparent_class_property {d : Deco} {P : Params → Fn → Args → Wo
   | none => rfl
   | some f => exact bodyObs_dropValue op _ _ (h p f (op.args self) w (hP f hs))
 
-/-- `trace_class`: under `ReprTotal` of what the accessor's wrapper sees (the instance, the assigned value, the getter's result) -/
-theorem transparent_trace_class_property (p : Params) (old : PropObj) (self : Nat) (op : PropOp) (w : World)
-    (hr : ∀ f, old.slot op.slot = some f → ReprTotal p f (op.args self) w) :
+theorem transparent_trace_class_property (p : Params) (old : PropObj) (self : Nat) (op : PropOp) (w : World) :
     bodyObs (propAccess (rebuildProp dTrace p old) self op w) = bodyObs (propAccess old self op w) :=
-  transparent_class_property transparent_trace_partial p old self op w hr
+  transparent_class_property transparent_trace p old self op w (fun _ _ => trivial)
 
 theorem transparent_timer_class_property (p : Params) (old : PropObj) (self : Nat) (op : PropOp) (w : World) :
     bodyObs (propAccess (rebuildProp dTimer p old) self op w) = bodyObs (propAccess old self op w) :=
@@ -1965,37 +1866,50 @@ theorem hoisted_wrappers_are_shared :
     (applyShared { dMock with freshWrappers := false } p0 [.body b0, .body b0]).map (fun ap => (ap.obj, ap.shows)) = [(0, 1), (0, 1)] := by
   decide
 
-/-! ## What the guards `ReprTotal` / `EqTotal` / the `__ne__` clause of `OtherAgrees` exclude — and that the code really fails there
+/-! ## Objects of the caller whose `__repr__` / `__str__` / `__eq__` / `__ne__` raise
 
-Findings `traceFormatsArgumentsAndResults` (trace, trace_if_returns, does_same_as_function, the refusal message of require_kwargs format
-arguments / results: a raising `__repr__` / `__str__` escapes from the decorated call) and `comparisonsCallUserEq` (trace_if_returns
-evaluates `result == return_value`, does_same_as_function `other != result`: a raising `__eq__` / `__ne__` escapes). -/
+Formatting (finding `traceFormatsArgumentsAndResults`, REPAIRED): trace, trace_if_returns and does_same_as_function format arguments and
+results through the never-raising display wrapper `helper_methods._Shown`; the inputs that used to fail are now positive instances
+(`fixed_*`).  Comparisons (finding `comparisonsCallUserEq`, open): trace_if_returns evaluates `result == return_value`,
+does_same_as_function `other != result` — a raising `__eq__` / `__ne__` escapes; what the guards `EqTotal` / the `__ne__` clause of
+`OtherAgrees` exclude really fails.  The refusal message of `require_kwargs` (`FunctionCall.assert_uses_kwargs`) still formats the
+refused arguments themselves (generated fact `refusalMessageFormatsRawArguments`). -/
 
 /-- the argument `A` (identity 11) has a `__repr__` that raises -/
 def pBadArg : Params := { p0 with traits := fun i => if i = 11 then ⟨true, false, false, false⟩ else Traits.total }
-/-- the first result (identity 100) has a `__repr__` that raises / an `__eq__` that raises -/
-def pBadResultRepr : Params := { p0 with traits := fun i => if i = 100 then ⟨true, false, false, false⟩ else Traits.total }
+/-- the first result (identity 100) has a `__repr__` and a `__str__` that raise / an `__eq__` that raises -/
+def pBadResultRepr : Params := { p0 with traits := fun i => if i = 100 then ⟨true, true, false, false⟩ else Traits.total }
 def pBadResultEq : Params := { p0 with traits := fun i => if i = 100 then ⟨false, false, true, false⟩ else Traits.total }
 /-- what `other_func` returns first (identity 300, equal to the result) has an `__ne__` that raises -/
 def pBadOtherNe : Params :=
   { p0 with other := ⟨false, ⟨[2, 3], [], [], false, false⟩, fun i => .ret ⟨300 + i, 100 + i⟩⟩,
             traits := fun i => if i = 300 then ⟨false, false, false, true⟩ else Traits.total }
 
-/-- `trace(f)(A, B)` with an `A` whose `__repr__` raises: the body never runs, the caller gets the exception of `__repr__` — `f(A, B)`
-    returns -/
-theorem trace_fails_on_unformattable_argument :
-    bodyObs (invoke (.deco dTrace pBadArg (.body b0)) a0 w0) = ⟨.exc (.lib "ReprErr"), [], 0⟩ ∧
+/-- **no wrapper formats an object of the user with the object's own methods** — over the regenerated text of every decorator level:
+    every `print` and every exception message formats arguments / results through the display wrapper or not at all (a `{args}`,
+    `{result!r}`, `{result}` written without it reappears as `.args` / `.reprOf` / `.strOf` and breaks this) -/
+theorem no_wrapper_formats_raw : ∀ d ∈ decos, decoRawFormats d = [] := by decide
+
+/-- … and that wrapper is the never-raising one (helper text re-read on every run) and is in use -/
+theorem display_wrapper_facts : displayWrapperNeverRaises = true ∧ 0 < formattedThroughDisplayWrapper := by decide
+
+/-- REPAIRED (was `trace_fails_on_unformattable_argument`): `trace(f)(A, B)` with an `A` whose `__repr__` raises behaves like `f(A, B)` -/
+theorem fixed_trace_unformattable_argument :
+    bodyObs (invoke (.deco dTrace pBadArg (.body b0)) a0 w0) = bodyObs (invoke (.body b0) a0 w0) ∧
     bodyObs (invoke (.body b0) a0 w0) = ⟨.obj ⟨100, 100⟩, [.body .wrapped 0 ⟨[(2, 11), (3, 12)], [], []⟩], 1⟩ := by decide
 
-/-- … with a result whose `__repr__` raises: the body has run, the caller gets the exception instead of the object -/
-theorem trace_fails_on_unformattable_result :
-    bodyObs (invoke (.deco dTrace pBadResultRepr (.body b0)) a0 w0) = ⟨.exc (.lib "ReprErr"), [.body .wrapped 0 ⟨[(2, 11), (3, 12)], [], []⟩], 1⟩ := by decide
+/-- REPAIRED (was `trace_fails_on_unformattable_result`): a result whose `__repr__` raises is handed to the caller -/
+theorem fixed_trace_unformattable_result :
+    bodyObs (invoke (.deco dTrace pBadResultRepr (.body b0)) a0 w0) = ⟨.obj ⟨100, 100⟩, [.body .wrapped 0 ⟨[(2, 11), (3, 12)], [], []⟩], 1⟩ := by decide
 
-theorem transparent_trace_full_fails : ¬ transparent_trace_full := by
-  intro h
-  have := h pBadArg (.body b0) a0 w0 trivial
-  revert this
-  decide
+/-- REPAIRED: `trace_if_returns(x)(f)` with a MATCHING result whose `__str__` raises prints and hands the result on -/
+theorem fixed_trace_if_returns_unformattable_match :
+    bodyObs (invoke (.deco dTraceIfReturns { pBadResultRepr with param := ⟨90, 100⟩ } (.body b0)) a0 w0)
+      = ⟨.obj ⟨100, 100⟩, [.body .wrapped 0 ⟨[(2, 11), (3, 12)], [], []⟩], 1⟩ := by decide
+
+/-- REPAIRED: differing results that cannot be formatted are still an `AssertionError` (not the exception of `__str__`) -/
+theorem fixed_does_same_unformattable_difference :
+    (invoke (.deco dDoesSameAsFunction pBadResultRepr (.body b0)) a0 w0).1.tag = .exc (.lib "AssertionError") := by decide
 
 /-- `trace_if_returns(x)(f)()` with a result whose `__eq__` raises -/
 theorem trace_if_returns_fails_on_raising_eq :
@@ -2046,8 +1960,7 @@ theorem require_kwargs_refusal_formats_arguments :
     (invoke (.deco dRequireKwargs { p0 with guard := ⟨false, false, false, 1, true, false, false⟩ } (.body b0)) a0 w0).1.tag = .exc (.lib "PedanticCallWithArgsException") := by
   decide
 
-example : ReprTotal p0 (.body b0) a0 w0 := ⟨by decide, fun _ _ _ _ => rfl⟩
-example : ¬ ArgsReprTotal pBadArg a0 := by decide
+example : EqTotal p0 (.body b0) a0 w0 := ⟨rfl, fun _ _ _ _ => rfl⟩
 
 /-! ## The tables contain every decorator the property names -/
 
